@@ -180,7 +180,7 @@ def _apply_common(piece, blk):
                 piece.counts['hint_skipped'] = piece.counts.get('hint_skipped', 0) + 1
                 continue
             s_ = piece.src.s
-            k = hits[0] + n - 1 if s_[hits[0] + n - 1].text == '{' else hits[0] + n
+            k = hits[0]
             depth = 0
             while not (s_[k].text == '{' and depth == 0):
                 if s_[k].text in rtok.OPEN: depth += 1
@@ -419,7 +419,7 @@ def generate(repo, template_text, variables=None):
                     _gen_literal(repo, blk, gen)
                     blk = None
             elif m and m.group(1) == 'default_after_all':
-                frm, to = m.group(2).split('==>')
+                frm, to = re.split(r'(?<!<)==>', m.group(2), maxsplit=1)
                 defaults.append((frm.strip(), to.strip()))
             elif m:
                 raise TemplateError(f'line {i+1}: directive {m.group(1)} outside a block')
@@ -439,22 +439,22 @@ def generate(repo, template_text, variables=None):
             elif d == 'for_desugar':
                 blk.setdefault('for_desugar', []).append(rest)
             elif d == 'elide_arg':
-                frm, to = rest.split('==>')
+                frm, to = re.split(r'(?<!<)==>', rest, maxsplit=1)
                 blk.setdefault('elides', []).append((frm.strip(), to.strip()))
             elif d == 'closure_spec':
-                frm, to = rest.split('==>')
+                frm, to = re.split(r'(?<!<)==>', rest, maxsplit=1)
                 blk.setdefault('closure_specs', []).append((frm.strip(), to.strip()))
             elif d in ('after', 'before', 'before_stmt', 'after?', 'before?', 'before_stmt?', 'loop_spec', 'loop_top'):
                 lst = []
                 blk['anchored'].append((d, rest, lst))
                 section = lst
             elif d == 'rewrite':
-                frm, to = rest.split('==>')
+                frm, to = re.split(r'(?<!<)==>', rest, maxsplit=1)
                 need = to.strip().startswith('!')
                 to = to.strip()[1:].strip() if need else to.strip()
                 blk['rewrites'].append((frm.strip(), to, need))
             elif d == 'after_all':
-                frm, to = rest.split('==>')
+                frm, to = re.split(r'(?<!<)==>', rest, maxsplit=1)
                 blk.setdefault('after_all', []).append((frm.strip(), to.strip()))
             elif d in ('strip', 'keep_attrs', 'from', 'through', 'through_stmt', 'from_nth'):
                 blk[d] = rest
